@@ -302,7 +302,8 @@ def execute(job):
     torn_steps = [{"step": b["step"], "torn": b["torn"]} for b in r.snapshots_bad]
     return {"prog": job["prog"], "init": init, "events": events, "final": fin, "torn_steps": torn_steps,
             "sched": [[t["sid"], t["call"], t["path"]] for t in r.trace], "order": order, "kill": kill,
-            "exits": [s.exit for s in r.servers], "relax_list": False, "want_final": job.get("want_final"), "want_bad": job.get("want_bad")}
+            "exits": [s.exit for s in r.servers], "relax_list": False, "want_final": job.get("want_final"), "want_bad": job.get("want_bad"),
+            "want_replies": job.get("want_replies"), "by_label": labels is not None}
 
 
 def run_jobs(copia, shim, root, hashes, jobs, nproc=8):
@@ -320,4 +321,35 @@ def compute_hashes(b3bin, workdir):
     p = os.path.join(workdir, "c_c0")
     open(p, "wb").close()
     out["c0"] = subprocess.run([b3bin, "b3", p], capture_output=True, text=True).stdout.strip()      # expected-hash only, never a content
+    return out
+
+
+def model_reply_key(m, ch=LABEL_CH):
+    """a reply of a HubSched behaviour (JSON of Hub.tla's reply record) -> comparable tuple"""
+    def cls(d):
+        if not d:
+            return "empty"
+        return d[0][0] if len(d) == ch and all(x[0] == d[0][0] and x[1] == i + 1 for i, x in enumerate(d)) else "torn"
+    if m["op"] == "get":
+        return ("get", "notfound") if m["r"] == "notfound" else ("get", "content", cls(m["body"]), cls(m["hash"]), m["len"] == len(m["body"]))
+    if m["r"] == "error":
+        return (m["op"], "error")
+    return (m["op"], m["r"], m["cur"])
+
+
+def real_reply_keys(rec):
+    """the real servers' replies of one execution, per server in order, as the same tuples"""
+    kinds = {e["id"]: e["op"]["kind"] for e in rec["events"] if e["t"] == "call"}
+    out = {}
+    for e in rec["events"]:
+        if e["t"] != "ret":
+            continue
+        k, r = kinds.get(e["id"], "?"), e["reply"]
+        if k == "get":
+            key = ("get", "content", r["body"], r["hash"], bool(r["len_ok"])) if r["r"] == "content" else ("get", "notfound" if r["r"] == "error" else r["r"])
+        elif r["r"] == "error":
+            key = (k, "error")
+        else:
+            key = (k, r["r"], r["cur"])
+        out.setdefault(e["sid"], []).append(key)
     return out
